@@ -100,6 +100,7 @@ var nameForms = []func(i int, r *rand.Rand) string{
 	func(i int, r *rand.Rand) string { return fmt.Sprintf("end_%d", i) },         // keyword-like
 	func(i int, r *rand.Rand) string { return fmt.Sprintf("-%d", i+1) },          // looks like a negative number
 	func(i int, r *rand.Rand) string { return fmt.Sprintf("pad%d ", i) },         // ends in a blank (part of the name)
+	func(i int, r *rand.Rand) string { return fmt.Sprintf("a,b;%d", i) },         // separators of lists inside a name
 	func(i int, r *rand.Rand) string { return fmt.Sprintf("r%d", i) },
 	func(i int, r *rand.Rand) string { return fmt.Sprintf("r%d", i) },
 }
@@ -180,7 +181,7 @@ func Gen(r *rand.Rand, o GenOpts) *RuleSet {
 		if r.Float64() < o.RetProb {
 			ru.Ret = RetBare + r.Intn(2)
 			ru.RetVal = int64(1000 + r.Intn(1000000))
-			ru.RetShape = r.Intn(5)
+			ru.RetShape = r.Intn(6)
 			if ru.Fails() && ru.Ret == RetValue && r.Intn(2) == 0 {
 				ru.FailInReturn = true
 			}
@@ -293,6 +294,9 @@ func (ru *Rule) Body(r *rand.Rand) string {
 			fmt.Fprintf(&b, "for i = 0; i < 3; i += 1 {%sif i == 1 {%s%s%s%s%s}%s}%s", ws(r), ws(r), end, ws(r), ret, ws(r), ws(r), ws(r))
 		case 3:
 			fmt.Fprintf(&b, "forRange k := three {%sif k == 2 {%s%s%s%s%s}%s}%s", ws(r), ws(r), end, ws(r), ret, ws(r), ws(r), ws(r))
+		case 5:
+			// the taken else-if branch holds NOTHING BUT the return
+			fmt.Fprintf(&b, "%s%sif 2 < 1 {%sst(-1)%s} else if 1 == 1 {%s%s%s} else {%sst(-2)%s}%s", end, ws(r), ws(r), ws(r), ws(r), ret, ws(r), ws(r), ws(r), ws(r))
 		default:
 			fmt.Fprintf(&b, "if 2 < 1 {%sst(-1)%s} else if 1 == 1 {%s%s%s%s%s} else {%sst(-2)%s}%s", ws(r), ws(r), ws(r), end, ws(r), ret, ws(r), ws(r), ws(r), ws(r))
 		}
@@ -339,7 +343,11 @@ func (ru *Rule) Header(r *rand.Rand) string {
 		fmt.Fprintf(&b, " \"%s\"", ru.Desc)
 	}
 	if ru.HasSal {
-		fmt.Fprintf(&b, " %s %d", []string{"salience", "SALIENCE"}[r.Intn(2)], ru.Sal)
+		if ru.Sal > 0 && r.Intn(6) == 0 {
+			fmt.Fprintf(&b, " %s 00%d", []string{"salience", "SALIENCE"}[r.Intn(2)], ru.Sal) // leading zeros: still decimal
+		} else {
+			fmt.Fprintf(&b, " %s %d", []string{"salience", "SALIENCE"}[r.Intn(2)], ru.Sal)
+		}
 	}
 	return b.String()
 }
